@@ -839,6 +839,13 @@ impl Mp4TrackWriter {
         sample: &Mp4Sample,
         movie_timescale: u32,
     ) -> Result<u64> {
+        if sample.bytes.len() > u32::MAX as usize {
+            return Err(Error::InvalidData("sample is too large"));
+        }
+        if self.sample_id == u32::MAX {
+            return Err(Error::InvalidData("too many samples in track"));
+        }
+
         self.chunk_buffer.extend_from_slice(&sample.bytes);
         self.chunk_samples += 1;
         self.chunk_duration = self.chunk_duration.saturating_add(sample.duration);
